@@ -596,7 +596,7 @@ struct TfSim
         if (!cmp(yd, wantd, "not-time-invariant", "filter fed the input delayed by d samples")) return false;
         if (exact) c.st.add("probe.tf_exact_steps");
         c.obs(bits_of(ym));
-        c.st.state(fnv_mix(fnv_mix(fnv_mix(FNV0, nn * 16 + dn), (uint64_t)(int64_t)(ym > 1e6 ? 1e6 : ym < -1e6 ? -1e6 : ym == ym ? ym : 0)), exact));
+        { int e1 = 0; std::frexp(ym, &e1); c.st.state(fnv_mix(fnv_mix(fnv_mix(FNV0, nn * 16 + dn), (uint64_t)(e1 + 2000) * 2 + (ym > 0)), (uint64_t)exact * 64 + (outM.size() > 63 ? 63 : outM.size()))); }
         return true;
     }
     void reset_all()
@@ -680,7 +680,7 @@ struct RcSim
         double const slack = 4 * ulp_of(std::max(std::fabs(lo), std::fabs(hi)));
         if (ol < lo - slack || ol > hi + slack) return c.fail("lowpass-left-input-range", "a_lpf_iter", "output %.17g outside [%.17g, %.17g] of the values fed so far", ol, lo, hi);
         c.obs(bits_of(ol)); c.obs(bits_of(oh));
-        c.st.state(fnv_mix(fnv_mix(FNV0, bits_of(alpha)), bits_of((float)ol)) ^ bits_of((float)oh));
+        { int e1 = 0, e2 = 0; std::frexp(ol, &e1); std::frexp(oh, &e2); c.st.state(fnv_mix(fnv_mix(fnv_mix(FNV0, (uint64_t)(int64_t)(alpha * 16)), (uint64_t)(e1 + 2000) * 4 + (ol > 0) * 2 + (oh > 0)), (uint64_t)(e2 + 2000) * 32 + (since_reset > 31 ? 31 : since_reset))); }
         return true;
     }
     void reinit(double a)
@@ -848,7 +848,7 @@ struct CtlEngine : Engine
     std::string rule(std::string const &prop) const override
     {
         if (prop == "C12") return "items are seeded closed-loop histories (plain / fuzzy / neuron controller; exact dyadic or general floating regime; 3 plant stubs) with sensor faults, set-point jumps, retuning, mode switches and zero at arbitrary samples; every sample checks limits, finiteness, the integrator clamp clause, the documented difference equation (bit-exact in the dyadic regime), restart replicas and the positional/incremental pair; evaluations = histories; distinct_nontrivial = HyperLogLog estimate of distinct (mode, saturation flags, sign(sum), sign(err), clamp flags, controller type, active sensor fault, floor(output)) states";
-        return "items are seeded input histories through the real transfer function (orders 0..8, integer coefficients, four lock-step replicas: main, second input, linear combination, delayed input) or through the RC filters (dyadic or general alpha), with zero at arbitrary samples, quiet phases with a settling bound, and coefficient generation over 24 decades; distinct_nontrivial = HyperLogLog estimate of distinct (orders, clipped output value, exactness flag) / (alpha, quantised outputs) states";
+        return "items are seeded input histories through the real transfer function (orders 0..8, integer coefficients, four lock-step replicas: main, second input, linear combination, delayed input) or through the RC filters (dyadic or general alpha), with zero at arbitrary samples, quiet phases with a settling bound, and coefficient generation over 24 decades; distinct_nontrivial = HyperLogLog estimate of distinct (numerator order, denominator order, binary exponent and sign of the output, exactness flag, samples since reset) states for the transfer function and (alpha in sixteenths, exponents and signs of both outputs, samples since reset) states for the RC filters";
     }
     std::vector<std::string> assumptions(std::string const &prop) const override
     {
@@ -857,7 +857,7 @@ struct CtlEngine : Engine
         else v.push_back("transfer-function coefficients and inputs are small integers so that the direct-form reference is exact below 2^50; beyond that a relative tolerance 2^-40 applies");
         return v;
     }
-    uint64_t default_runs(std::string const &prop, int tier) const override { (void)prop; return tier ? 1500000 : 30000; }
+    uint64_t default_runs(std::string const &prop, int tier) const override { return prop == "C12" ? (tier ? 14000000 : 200000) : (tier ? 30000000 : 400000); }
 };
 
 Engine *make_engine() { return new CtlEngine(); }
